@@ -1,5 +1,6 @@
 import GB.C15.ProofsPoll
 import GB.C15.ProofsWake
+import GB.C15.ProofsExtra
 import GB.Generated.Facts
 /-
   C15 — description updates are delivered exactly when the target's contract changes.
@@ -31,10 +32,10 @@ theorem C15_facts_rearm :
     GB.Generated.resolverRearmSkeleton = ["assign:resolveNow=make", "assign:f=OnceFunc(close:resolveNow)", "store:notifyResolveNow"] := by
   decide
 
-/-- `resolveWithMethod`: hashes compared before the parse, saved only after it; both hash functions
+/-- `resolveWithMethod`: hashes computed after the dependency retrieval, compared before the parse, saved only after it; both hash functions
     sort their input and write every item length-prefixed; `ResolveNow` = load + call, `Close` = send on `done`. -/
 theorem C15_facts_bookkeeping :
-    GB.Generated.resolverHashOrder = ["hash:proto", "hash:services", "compare:return-nil", "parse", "save:lastProtoHash", "save:lastServicesHash"] ∧
+    GB.Generated.resolverHashOrder = ["retrieve-deps", "hash:proto", "hash:services", "compare:return-nil", "parse", "save:lastProtoHash", "save:lastServicesHash"] ∧
     GB.Generated.resolverHashWrites = [("hashNamedProtoBundles", "sort,writeLenPrefixed"), ("hashServiceNames", "sort,writeLenPrefixed"), ("writeLenPrefixed", "PutUint64(len),Write,Write")] ∧
     GB.Generated.resolverResolveNowClose = ["ResolveNow:load:notifyResolveNow,call", "Close:send:done"] ∧
     GB.Generated.resolverFallback = ["range:methodPriority", "if:Unimplemented:continue", "elseif:nil:swap(0,i)", "return"] := by
@@ -243,7 +244,7 @@ theorem C15_winner_closes_armed_channel (manual : Bool) (s : W) (h : GB.LTS.Reac
     weak fairness of the poller and of a caller inside `ResolveNow`.) -/
 theorem C15_wake_progress (manual : Bool) (s : W) (h : GB.LTS.Reachable step (W.init manual) s)
     (hc : Coming s) (hidle : s.closer = .idle) :
-    (∃ l s', step s l = some s' ∧ (rank s' < rank s ∨ l = .pollStart)) ∧
+    (∃ l s', step s l = some s' ∧ isProtocol l = true ∧ (rank s' < rank s ∨ l = .pollStart)) ∧
     (∀ l s', step s l = some s' → l ≠ .closeCall →
       l = .pollStart ∨ (Coming s' ∧ rank s' ≤ rank s ∧ s'.closer = .idle)) :=
   ⟨coming_progress s hc, fun l s' hs hl => coming_stable s s' l (inv_reachable manual s h) hc hidle hs hl⟩
@@ -320,6 +321,131 @@ theorem C15_close_trace (manual : Bool) (ls₁ ls₂ : List Lbl) (s : W)
           · rcases hstep with h | ⟨i, h | h | h⟩ <;> rw [← e] at h <;> cases h
           · exact this.2 cb e
   exact tail ls₂ s1 s (inv_reachable manual s1 hreach1) hret hr2
+
+/-- **Liveness with an explicit bound** (weak fairness made finite). From every reachable state in
+    which a `ResolveNow` call has completed but is not yet served and `Close` has not been called:
+    along EVERY execution from there — callers, further `ResolveNow` calls and the scheduler may
+    interleave arbitrarily, only `Close` must not be called — as soon as 8 non-environment steps
+    (`isProtocol`: the poller's own steps and the channel close owed by a caller that won the once)
+    have been taken, one of them was a poll start, and from then on the call is served. The
+    second part says such executions can always be continued by a non-environment step (no
+    deadlock), so in an infinite run in which every continuously enabled non-environment step is
+    eventually taken the 8 steps do happen: a completed `ResolveNow` is followed by a poll start. -/
+theorem C15_resolve_now_served_within (manual : Bool) (s : W) (h : GB.LTS.Reachable step (W.init manual) s)
+    (i : Nat) (hf : (s.callers i).pc = .finished) (hns : (s.callers i).served = false) (hidle : s.closer = .idle)
+    (ls : List Lbl) (s' : W) (hrun : GB.LTS.run step s ls = some s') (hnc : .closeCall ∉ ls) :
+    (8 ≤ (ls.filter isProtocol).length → .pollStart ∈ ls) ∧
+    (.pollStart ∈ ls → (s'.callers i).served = true) ∧
+    (.pollStart ∉ ls → ∃ l t, isProtocol l = true ∧ step s' l = some t) := by
+  obtain ⟨hi, h2⟩ := inv2_reachable manual s h
+  have hc : Coming s := by
+    rcases inv_no_lost s hi i hf with h | h | h
+    · simp [hns] at h
+    · exact h
+    · exact absurd hidle h
+  refine ⟨fun hk => ?_, fun hp => ?_, fun hnp => ?_⟩
+  · exact coming_served_within ls s s' hi h2 hc hidle hrun hnc (Nat.le_trans (rank2_le s) hk)
+  · exact (served_after_pollStart ls s s' i hrun (by simp [hf]) (Or.inr hp)).2
+  · -- the poll is still coming at s', so a protocol step is enabled there
+    have stay : ∀ (ls : List Lbl) (a b : W), Inv a → Inv2 a → Coming a → a.closer = .idle →
+        GB.LTS.run step a ls = some b → .closeCall ∉ ls → .pollStart ∉ ls → Coming b := by
+      intro ls
+      induction ls with
+      | nil => intro a b _ _ hc _ hr _ _; simp [GB.LTS.run] at hr; exact hr ▸ hc
+      | cons l rest ih =>
+        intro a b hia h2a hca hida hr hncl hnps
+        simp only [GB.LTS.run] at hr
+        cases hst : step a l with
+        | none => simp [hst] at hr
+        | some a1 =>
+          rw [hst] at hr
+          have hl : l ≠ .closeCall := fun e => hncl (e ▸ List.mem_cons_self)
+          have hp : l ≠ .pollStart := fun e => hnps (e ▸ List.mem_cons_self)
+          obtain ⟨hc1, hid1, _, _⟩ := coming_step2 a a1 l hia h2a hca hida hst hl hp
+          exact ih a1 b (inv_step a a1 l hia hst) (inv2_step a a1 l hia h2a hst) hc1 hid1 hr
+            (fun h => hncl (List.mem_cons_of_mem _ h)) (fun h => hnps (List.mem_cons_of_mem _ h))
+    have hcb := stay ls s s' hi h2 hc hidle hrun hnc hnp
+    obtain ⟨l, t, hst, hpr, _⟩ := coming_progress s' hcb
+    exact ⟨l, t, hpr, hst⟩
+
+/-- **A second `Close` panics.** Once the poller has served one `Close` call (that call is about to
+    return or has returned), the send `r.done <- struct{}{}` of any further `Close` call is never
+    received; it panics (send on closed channel) as soon as the poller has executed
+    `close(r.done)`, which is the only step left to the poller — a sender already blocked at that
+    moment panics too. -/
+theorem C15_close_idempotence_panics (manual : Bool) (s : W) (h : GB.LTS.Reachable step (W.init manual) s)
+    (hserved : s.closer = .sent ∨ s.closer = .returned) :
+    sendOnDone s ≠ .delivered ∧ (s.ppc = .exited → sendOnDone s = .panics) ∧
+    (s.ppc = .gotDone → ∃ s', step s .closeDone = some s' ∧ sendOnDone s' = .panics) ∧
+    (∀ l s', step s l = some s' → (s'.closer = .sent ∨ s'.closer = .returned) ∧ sendOnDone s' ≠ .delivered) := by
+  have hi := inv_reachable manual s h
+  obtain ⟨h1, h2, h3⟩ := sendOnDone_after_served s hi hserved
+  refine ⟨h1, h2, h3, fun l s' hs => ?_⟩
+  have hi' := inv_step s s' l hi hs
+  have hcl : s'.closer = .sent ∨ s'.closer = .returned := by
+    have hp := hi.e2 hserved
+    cases l <;> simp only [step] at hs
+    all_goals (try (split at hs <;> try simp at hs))
+    case fire j => split at hs <;> simp at hs <;> subst hs <;> exact hserved
+    all_goals (first | (subst hs; first | exact hserved | (right; rfl) ) | (rcases hserved with e | e <;> simp_all))
+  exact ⟨hcl, (sendOnDone_after_served s' hi' hcl).1⟩
+
+/-! ## options and the aggregate watcher -/
+
+/-- **Options clamping** (`ResolverOpts.withDefaults` + `NewResolverBuilder`), for all inputs:
+    PollInterval 0 ⇒ 5 min, otherwise at least 1 s; ReqTimeout 0 ⇒ 10 s, otherwise at least 1 ms;
+    RecursionLimit 0 ⇒ 100, negative ⇒ 0, positive kept; `"grpc."` appended after the caller's
+    prefixes; flags untouched; values already in range are kept as they are. -/
+theorem C15_opts_defaults (o : Opts) :
+    (builderOpts o).pollInterval = (if o.pollInterval = 0 then 300000000000 else max o.pollInterval 1000000000) ∧
+    (builderOpts o).reqTimeout = (if o.reqTimeout = 0 then 10000000000 else max o.reqTimeout 1000000) ∧
+    (builderOpts o).recursionLimit = (if o.recursionLimit = 0 then 100 else max o.recursionLimit 0) ∧
+    1000000000 ≤ (builderOpts o).pollInterval ∧ 1000000 ≤ (builderOpts o).reqTimeout ∧ 0 ≤ (builderOpts o).recursionLimit ∧
+    (builderOpts o).ignorePrefixes = o.ignorePrefixes ++ [grpcPrefix] ∧
+    (builderOpts o).pollManually = o.pollManually ∧ (builderOpts o).onlyServices = o.onlyServices ∧
+    (1000000000 ≤ o.pollInterval → 1000000 ≤ o.reqTimeout → 0 < o.recursionLimit → withDefaults o = o) := by
+  simp only [builderOpts, withDefaults, second, millisecond]
+  refine ⟨?_, ?_, ?_, ?_, ?_, ?_, trivial, trivial, trivial, ?_⟩
+  · simp only [Int.max_def]; repeat' split
+    all_goals omega
+  · simp only [Int.max_def]; repeat' split
+    all_goals omega
+  · simp only [Int.max_def]; repeat' split
+    all_goals omega
+  · repeat' split
+    all_goals omega
+  · repeat' split
+    all_goals omega
+  · repeat' split
+    all_goals omega
+  · intro h1 h2 h3
+    have e1 : ¬ o.pollInterval = 0 := by omega
+    have e2 : ¬ o.pollInterval < 1000000000 := by omega
+    have e3 : ¬ o.reqTimeout = 0 := by omega
+    have e4 : ¬ o.reqTimeout < 1000000 := by omega
+    have e5 : ¬ o.recursionLimit = 0 := by omega
+    have e6 : ¬ o.recursionLimit < 0 := by omega
+    simp [e1, e2, e3, e4, e5, e6]
+
+/-- `withDefaults` is NOT idempotent on RecursionLimit (−1 ↦ 0 ↦ 100): the documented minimum 0 is only
+    reachable because the builder applies it exactly once. -/
+example : (withDefaults ⟨0, 0, -1, [], false, false⟩).recursionLimit = 0 ∧
+    (withDefaults (withDefaults ⟨0, 0, -1, [], false, false⟩)).recursionLimit = 100 := by decide
+
+/-- **The routers see exactly the resolver's callbacks.** `aggregateWatcher` turns every call into
+    the same call on each of its `n` watchers, in order; hence each watcher (the pattern router's,
+    the service router's) observes precisely the resolver-level callback sequence — which for every
+    history is the specification's (`C15_updates`). -/
+theorem C15_aggregate_fanout {H D : Type} [DecidableEq H] (sha : Bytes → H) (hinj : Function.Injective sha)
+    (nameOf : Bytes → Bytes) (envs : List (Version → Attempt D))
+    (hwf : ∀ env ∈ envs, ∀ v o p, env v = .fetched o p → ObsWF nameOf o) (n i : Nat) (hi : i < n) :
+    (∀ {α : Type} (evs : List α), observedBy i (aggregateLog n evs) = evs) ∧
+    (∀ {α : Type} (e : α), aggregateLog n [e] = (List.range n).map (fun j => (j, e))) ∧
+    observedBy i (aggregateLog n (runPolls sha (RState.init H) envs).flatten) =
+      (specRun none (outcomesOf sha (RState.init H) envs)).flatten := by
+  refine ⟨fun evs => observedBy_aggregateLog n i hi evs, fun e => by simp [aggregateLog, fanout], ?_⟩
+  rw [observedBy_aggregateLog n i hi, (C15_updates sha hinj nameOf envs hwf).1]
+
 
 /-! ## non-vacuity -/
 
